@@ -513,6 +513,14 @@ func checkAvcDecConf(c *runner.Ctx, w *witness) {
 	}
 }
 
+// padList repeats the elements of l cyclically until it has n elements (n <= len(l): unchanged).
+func padList(l []string, n int) []string {
+	for i := 0; len(l) < n; i++ {
+		l = append(l, l[i])
+	}
+	return l
+}
+
 func clipBytes(b []byte, n int) []byte {
 	if len(b) > n {
 		return b[:n]
@@ -721,6 +729,14 @@ func runAvc(c *runner.Ctx) {
 		}
 		for _, cd := range ppsCoded {
 			pl = append(pl, hx(cd.NAL))
+		}
+		if r.Chance(1, 6) {
+			// many parameter sets: numOfSequenceParameterSets is a 5-bit, numOfPictureParameterSets an 8-bit count
+			pl = padList(pl, r.PickInt(30, 31, 32, 33, 63, 64, 65, 128, 254, 255))
+			if r.Bool() {
+				sl = padList(sl, r.PickInt(2, 15, 16, 30, 31))
+			}
+			c.Seen("avc.decconf", fmt.Sprintf("sps=%d,pps=%d", len(sl), len(pl)))
 		}
 		w := &witness{Codec: "avc", Kind: "decconf", SPS: sl, PPS: pl, Want: spsCoded[0].Elems, Hazards: avcSPSHazards(spsRecs[0])}
 		if r.Chance(1, 8) {
